@@ -18,6 +18,7 @@ type EvalCtx struct {
 	old   *heapSnap // heap snapshot for old(); nil => initial versions
 	inOld bool
 	depth int
+	facts *[]string // side facts (heap closedness) collected during evaluation of ground terms
 }
 
 func (c *EvalCtx) with(name string, t Term) *EvalCtx {
@@ -340,6 +341,7 @@ func derefStruct(t types.Type) (*types.Struct, *types.Named) {
 	if p, ok := t.Underlying().(*types.Pointer); ok {
 		t = p.Elem()
 	}
+	t = types.Unalias(t)
 	n, _ := t.(*types.Named)
 	s, _ := t.Underlying().(*types.Struct)
 	return s, n
@@ -387,7 +389,33 @@ func (v *Verifier) fieldRead(c *EvalCtx, ref string, named *types.Named, st *typ
 	}
 	s := v.decls.sortOf(f.Type())
 	hv := v.fieldHeapName(named, f)
-	return mkTerm(sel(c.heapVar(hv, arrSort(sInt, s)), ref), s, f.Type())
+	t := mkTerm(sel(c.heapVar(hv, arrSort(sInt, s)), ref), s, f.Type())
+	c.closedFact(ref, "", t)
+	return t
+}
+
+// closedFact records heap closedness for a ground ref-valued read: an allocated object's pointer fields
+// (and the values of an allocated map) refer to allocated objects or nil.
+func (c *EvalCtx) closedFact(base, guard string, val Term) {
+	if c.facts == nil || c.st == nil || !isRefType(val.T) {
+		return
+	}
+	if strings.Contains(val.S, "q!") || strings.HasPrefix(base, "(emb_") && strings.Contains(base, "q!") {
+		return
+	}
+	a := c.st.heapGet(c.v, "$alloc", sInt)
+	pre := "(and (> " + base + " 0) (< " + base + " " + a + "))"
+	if strings.HasPrefix(base, "(emb_") {
+		// embedded struct: allocatedness is that of the outer object; be permissive
+		pre = "true"
+	}
+	if guard != "" {
+		pre = and(pre, guard)
+	}
+	*c.facts = append(*c.facts, implies(pre, "(and (>= "+val.S+" 0) (< "+val.S+" "+a+"))"))
+	if f := c.v.rtypeFact(val); f != "" {
+		*c.facts = append(*c.facts, implies(pre, f))
+	}
 }
 
 func (v *Verifier) isEmbeddedStructField(t types.Type) bool {
@@ -463,8 +491,12 @@ func (c *EvalCtx) evalIndex(x, i Term, e Expr) Term {
 	v := c.v
 	if x.T != nil {
 		if mt, ok := x.T.Underlying().(*types.Map); ok {
-			_, val, _, _, vs := c.mapArrays(mt)
-			return mkTerm(sel(sel(val, x.S), i.S), vs, mt.Elem())
+			dom, val, _, _, vs := c.mapArrays(mt)
+			t := mkTerm(sel(sel(val, x.S), i.S), vs, mt.Elem())
+			if !strings.Contains(i.S, "q!") {
+				c.closedFact(x.S, sel(sel(dom, x.S), i.S), t)
+			}
+			return t
 		}
 	}
 	if x.Sort == sString {
@@ -662,6 +694,9 @@ func (c *EvalCtx) evalCall(e *ECall) Term {
 	case "update":
 		a, i, x := arg(0), arg(1), arg(2)
 		return mkTerm(store(a.S, i.S, x.S), a.Sort, nil)
+	case "chanRecvA":
+		ch := c.eval(e.Args[0])
+		return mkTerm(sel(c.heapVar("CH_recva", arrSort(sInt, sInt)), ch.S), sInt, nil)
 	case "chanSentN", "chanRecvN", "chanTotal", "chanClosed", "chanCap", "chanSentAt", "chanInAt":
 		return c.evalChanFn(e)
 	}
